@@ -6,8 +6,8 @@ from diffcheck import Spec, run_spec
 
 HARNESSES = [("h_lifecycle", "plain", ())]
 
-T_BEH = "cdfhrRp"
-H_FAST = "cfkdbhrzsStA"
+T_BEH = "cdfhrRpK"
+H_FAST = "cfkdbhrzsStAL"
 H_SLOW = "ijmw"
 
 
@@ -21,9 +21,10 @@ class C08(Spec):
     env = {"PV_CASE_TIMEOUT": "40"}
     rule = ("live listeners with 1-3 workers; every round runs 1-12 client behaviours concurrently, for 1-30 rounds. "
             "Raw Tcp::Handler (T): connect+close, data+close, data/echo/close, data+shutdown(WR), data+RST, immediate RST, "
-            "4 MB write requested then closed unread (pending writes at abort). Http::Endpoint with 600 ms time-outs (H): "
+            "4 MB write requested then closed unread (pending writes at abort), the handler keeps the peer and sends to it (Peer::send) 150 ms after the connection has ended - when a fresh connection holds its "
+            "descriptor number (K), one connection keeps the worker busy while two others send data and close / half-close so that data and end of stream reach the worker in ONE readiness event, nothing being written back (n,u,v). Http::Endpoint with 600 ms time-outs (H): "
             "connect+close, request/response, keep-alive x2, partial head, partial body, request+shutdown(WR), request+RST, request for a slow 24 MB answer and close at once (the answer is written to a peer that has gone), "
-            "a 16 MB file served with Http::serveFile and abandoned after 17 bytes, the same file downloaded completely, an answer sent after ResponseWriter::timeoutAfter(300 ms) was armed, "
+            "a 16 MB file served with Http::serveFile and abandoned after 17 bytes, the same file downloaded completely, an answer sent after ResponseWriter::timeoutAfter(300 ms) was armed, an answer sent by a thread of the handler's own 150 ms after the client has closed (L), "
             "silence until the idle scan closes, partial head then silence, answered request then silence, a 24 MB answer never read (write blocked over several idle scans, 408 queued behind it) then RST. Per peer id the "
             "callback log (C connection, I input/request, D disconnection), callbacks after D, /proc/self/fd against the "
             "idle baseline, and - after every round - as many fresh connections as the round had, which must each receive exactly "
@@ -50,6 +51,10 @@ class C08(Spec):
         cases += ["H 1 6 A,A,A", "H 2 4 A,f,A,S", "H 3 5 A,A,S,A,f,A"]
         cases.append("H 2 3 s,z,s,f")
         cases.append("H 1 4 t,t,f")
+        # data and end of stream in one readiness event (the worker is busy meanwhile), nothing written back
+        cases += ["T 1 2 n,u,v", "T 1 3 n,u,v,u,v", "T 2 2 n,u,v,f"]
+        # writes for a connection that has ended: Peer::send on a kept peer (T), an answer from a thread of the handler's (H)
+        cases += ["T 1 2 K", "T 2 3 K,f,K", "T 1 2 K,K,K", "H 1 2 L,f,k", "H 2 3 L,L,f,L"]
         cases.append("T 1 4 p")
         cases.append("T 2 3 p,p,f,p")
         nT, nH, nS = (25, 12, 6) if tier == "quick" else (400, 150, 60)
